@@ -17,6 +17,46 @@ import screen_checks
 
 def decode_check(prop, tier, seed, rep):
     decode_checks.run(prop, tier, seed, rep)
+    if prop == "C01":
+        totality_of_operations(tier, seed, rep)
+
+
+def totality_of_operations(tier, seed, rep):
+    """C01, second half: pairing two position reports and feeding frames to the tracker never panic - boundary CPR
+    values in both orders, receivers at the poles / antimeridian, range limits 0 and huge.  Judged by Trace_Pair and
+    Trace_Tracker (a panic or a non-finite result is owned by C01)."""
+    import random
+    rng = random.Random(seed * 1000003 + 101)
+    hx = core.build_hx("std")
+    ins = [x for x in pair_checks.inputs(rng, "quick") if x["tag"] in ("bnd", "tie", "raw", "same", "pole", "anti")]
+    rng.shuffle(ins)
+    ins = ins[:6000 if tier == "quick" else 60000]
+    r = subprocess.run([hx, "pair"], input="\n".join(json.dumps(x) for x in ins) + "\n", stdout=subprocess.PIPE, stderr=subprocess.PIPE, text=True, timeout=1200)
+    if r.returncode != 0:
+        raise core.ToolError("hx pair failed: " + r.stderr[-1000:])
+    pev = [json.loads(l) for l in r.stdout.splitlines() if l.strip()]
+    v1, st, tr = core.validate_events("Trace_Pair", pev, "C01-pair")
+    rep.add_trace_stats(st, tr, len(pev))
+    for v in v1:
+        for owner, field in v["pairs"]:
+            rep.mismatch(owner, v["cls"], field, {"kind": "pair", "event": pev[v["index"]]})
+    hists = []
+    saved = (track_checks.RECEIVERS[:], track_checks.RANGES_M[:])
+    try:
+        track_checks.RECEIVERS[:] = [(90.0, 0.0), (-90.0, 0.0), (0.0, 180.0), (0.0, -180.0), (89.999999, 179.999999), (0.0, 0.0)]
+        track_checks.RANGES_M[:] = [0, 1, 500_000, 19_000_000]
+        for i in range(24 if tier == "quick" else 400):
+            hists.append(track_checks.random_history(rng, f"x{i}", rng.choice((80, 200)), rng.choice((1, 3, 8)), with_time=False, with_serde=False))
+    finally:
+        track_checks.RECEIVERS[:], track_checks.RANGES_M[:] = saved
+    groups = track_checks.record(hx, hists)
+    tev = [e for g in groups for e in g]
+    v2, st, tr = core.validate_events("Trace_Tracker", tev, "C01-track", shards=core.MAX_JVMS, boundary=lambda e: e["ev"] == "reset")
+    rep.add_trace_stats(st, tr, len(hists))
+    for v in v2:
+        for owner, field in v["pairs"]:
+            rep.mismatch(owner, v["cls"], field, {"kind": "track-event", "event_index": v["index"]})
+    rep.extra.update({"pair_operations": len(pev), "tracker_steps": sum(1 for e in tev if e["ev"] == "action")})
 
 
 CHECKS = {p: decode_check for p in ("C01", "C02", "C03", "C04", "C06", "C07", "C08", "C09", "C10")}
